@@ -60,8 +60,9 @@ Definition wf_C12 (flush tick : list sev) : bool :=
   subseq [SLock "s.rateLk"; SClose "s.flushNotice"; SUnlock "s.rateLk"; SReturn; SCall "s.commit"; SLock "s.rateLk"; SClose "s.flushNotice"; SUnlock "s.rateLk"] flush
   && guarded "s.rateLk" (is_close_of "s.flushNotice") flush
   && guarded "s.rateLk" (is_assign_to "s.flushNotice") flush
-  (* flushTick measures, then registers under rateLk, then signals without blocking, then waits *)
-  && subseq [SCall "s.index.OutstandingWork"; SLock "s.rateLk"; SAssign "s.flushNotice"; SUnlock "s.rateLk";
+  (* flushTick measures, then registers under rateLk (creating the notice only if there is none: all waiters share one
+     channel), then signals without blocking, then waits *)
+  && subseq [SCall "s.index.OutstandingWork"; SLock "s.rateLk"; SIf; SAssign "s.flushNotice"; SEndIf; SUnlock "s.rateLk";
              SSelect; SCase; SSend "s.flushNow"; SDefault; SEndSelect; SRecv "flushNotice"] tick
   && guarded "s.rateLk" (is_assign_to "s.flushNotice") tick.
 
